@@ -145,6 +145,14 @@ def t_flushhelper(rt, kind, n):
 
 
 @asynq_dec()
+def t_nop(rt):
+    """A trivial async function; called synchronously from code the scheduler itself runs (value providers,
+    context callbacks)."""
+    rt.nop_calls += 1
+    return 0
+
+
+@asynq_dec()
 def t_runaway(rt, n):
     if n <= 0:
         return 0
@@ -364,6 +372,8 @@ class HCtx(AsyncContext):
             self.rt.violation("context-resumed-outside-its-block", {"ctx": self.cid})
         self.active = True
         self.rt.on_ctx(self, "resume")
+        if self.rt.ctx_sync:
+            t_nop(self.rt)
         self._maybe_fail("resume")
 
     def pause(self):
@@ -380,6 +390,8 @@ class HCtx(AsyncContext):
             self.pairs += 1
         self.active = False
         self.rt.on_ctx(self, "pause")
+        if self.rt.ctx_sync:
+            t_nop(self.rt)
         self._maybe_fail("pause")
 
 
@@ -500,6 +512,8 @@ class HarnessRT(object):
         self.live_ctx = {}
         self.live_na = {}
         self.ctx_faults = prog.get("ctx_faults")
+        self.ctx_sync = bool(prog.get("ctx_sync"))  # context callbacks make a synchronous asynq call
+        self.nop_calls = 0
         self.running = []
         self.keep = []
         self.wait_frames = []
@@ -737,6 +751,10 @@ class HarnessRT(object):
     def _lazy(self, site, inst, mode):
         def provider():
             self.lazy_calls[inst] = self.lazy_calls.get(inst, 0) + 1
+            if mode == "sync":
+                # the provider itself uses asynq synchronously (and needs no batch)
+                t_nop(self)
+                return ("lazy", site, inst)
             if mode == "ok":
                 return ("lazy", site, inst)
             e = UserErr(("lazy", site, inst))
